@@ -376,6 +376,7 @@ DEFAULT_PROFILE = dict(
     p_shared_route_name=0.0,
     p_alias_of_container_of_alias=0.0,
     p_multi_ns_doc=0.0,
+    p_sibling_same_tag=0.0,
     route_alias_user_only=False,
 )
 
@@ -1040,6 +1041,16 @@ class Gen:
                          anns=self.field_anns(ns, t, is_void=(t is None)))
             f.doc = self.doc(self.doc_refs_for(ns, d))
             d.fields.append(f)
+        if parent and self.p.get('p_sibling_same_tag') and r.random() < self.p['p_sibling_same_tag']:
+            # two unions extending the same parent may declare the same tag with different types
+            sibs = [x for x in self.m.defs('union') if x.parent == parent and x.fields]
+            if sibs:
+                sf = r.choice(r.choice(sibs).fields)
+                if all(f_.name != sf.name for f_ in d.fields):
+                    t = None if sf.type is not None and r.random() < 0.4 else self.type_expr(ns)
+                    if not (t is None and sf.type is None):
+                        d.fields.append(FieldDef(name=sf.name, type=t, default=None, doc=None, anns=[]))
+                        self.m.feature('sibling_unions_share_tag_name')
         ns.defs.append(d)
         d.doc = self.doc(self.doc_refs_for(ns, d))
         self.m.feature('union_closed' if closed else 'union_open')
